@@ -164,6 +164,9 @@ JOBS = {
     "K2": (("src", "ctxw", "tmpl_a", "del_a", "probe_factor"), {"r": 4.0}),
     "K3": (("ren_r_factor",), {"r": 4.0}),       # minimal: one context processor each (line-level harness in the quick tier)
     "K4": (("tmpl_a",), {"r": 7.0}),
+    # the job's payload carries data (the pipeline starts with an operation): a falsy content (0.0) is data like any other
+    "Z0": (("mul3", "probe_r"), {}, 0.0),
+    "Z5": (("mul3", "probe_r"), {}, 5.0),
     "FAIL": (("src", "fail"), {}),
     "BADCFG": (("src", "bogus"), {}),
     # fails inside Pipeline(...) itself (before any process() call): a sweep without variables
@@ -212,6 +215,15 @@ def job_nodes(name: str):
     return cfg.nodes
 
 
+def job_data(name: str):
+    """The data part of the job's payload (None for pipelines that start with a source)."""
+    if len(JOBS[name]) > 2:
+        from semantiva.examples.test_utils import FloatDataType
+
+        return FloatDataType(JOBS[name][2])
+    return None
+
+
 _DIRECT: Dict[str, Any] = {}
 
 
@@ -230,7 +242,7 @@ def direct(name: str):
         except Exception as exc:  # the pipeline cannot even be constructed: the job must still fail its Future
             _DIRECT[name] = ("construct", None, dict(JOBS[name][1]), type(exc).__name__)
             return _DIRECT[name]
-        real = harness.run_pipeline(pipe, None, dict(JOBS[name][1]), None)
+        real = harness.run_pipeline(pipe, job_data(name), dict(JOBS[name][1]), None)
         _DIRECT[name] = (real.status, real.data, dict(real.ctx), real.error)
     return _DIRECT[name]
 
@@ -282,7 +294,7 @@ def run_harness(batch: Tuple[str, ...], nworkers: int, prefix: List[int], fine: 
         def client():
             for i, name in enumerate(batch):
                 ctx = ContextType(dict(JOBS[name][1]))
-                f = orch.enqueue(nodes[name], data=None, context=ctx, return_future=True)
+                f = orch.enqueue(nodes[name], data=job_data(name), context=ctx, return_future=True)
                 futures.append((name, f, ctx))
                 if retire and i == 0:
                     S().block_until(lambda: futures[0][1].done(), "client.wait-first-job", kind="waiting")
@@ -466,14 +478,14 @@ def plans(tier: str):
                 (("BADCTOR", "J1"), 2, 0, False),
                 (("J1", "J2"), 1, 1, "worker"), (("FAIL", "J2"), 1, 1, "worker"), (("K1", "K2"), 2, 1, "pair"), (("K3", "K3"), 2, 1, "pair"), (("K1", "K2"), 2, 0, False),
                 (("J1", "J2", "FAIL"), 2, 0, "retire"),
-                (("Y1", "J1"), 1, 1, False), (("YMISSING", "J1"), 1, 0, False), (("J1", "YBAD", "Y1"), 2, 0, False)]
+                (("Y1", "J1"), 1, 1, False), (("Z0", "Z5"), 2, 0, False), (("YMISSING", "J1"), 1, 0, False), (("J1", "YBAD", "Y1"), 2, 0, False)]
     return [(("J1",), 1, 3, False), (("J1", "J2"), 1, 2, False), (("J1", "J2"), 2, 2, False), (("J1", "J2", "J3"), 2, 1, False), (("FAIL",), 1, 2, False),
             (("J1", "FAIL"), 1, 2, False), (("FAIL", "J2"), 2, 2, False), (("J1", "FAIL", "J3"), 2, 1, False), (("J1", "J2", "FAIL"), 2, 1, False),
             (("FAIL", "J1", "J2"), 1, 1, False), (("BADCFG", "J1"), 2, 1, False), (("J1", "J1"), 2, 2, False),
             (("BADCTOR",), 1, 2, False), (("J1", "BADCTOR", "J2"), 1, 1, False), (("BADCTOR", "J1"), 2, 1, False), (("J1", "BADCTOR"), 2, 1, "worker"),
             (("J1",), 1, 2, True), (("J1", "J2"), 1, 1, True), (("J1", "J2"), 2, 1, "worker"), (("FAIL", "J2"), 2, 1, "worker"), (("J1", "J2"), 2, 1, True),
             (("K3", "K4"), 2, 1, "ctxproc"), (("K3", "K4"), 2, 1, "pair"), (("K1", "K1", "K2"), 3, 1, "pair"), (("K2", "K1"), 2, 1, False), (("J1", "J2", "FAIL"), 2, 1, "retire"), (("J1", "J2", "J3", "FAIL"), 3, 0, "retire"),
-            (("Y1", "J1"), 2, 2, False), (("YMISSING", "J1"), 2, 1, False), (("J1", "YBAD", "Y1"), 2, 1, False), (("Y1", "Y1"), 2, 1, "worker")]
+            (("Y1", "J1"), 2, 2, False), (("Z0", "Z5", "Z0"), 2, 1, False), (("YMISSING", "J1"), 2, 1, False), (("J1", "YBAD", "Y1"), 2, 1, False), (("Y1", "Y1"), 2, 1, "worker")]
 
 
 class PileUp:
